@@ -357,7 +357,7 @@ def stepUplink (E : BlockFn) (sys : Sys) (s : UpSt) (fault : Bool) : Sys × List
     let ctx : Ctx := ⟨s.cur, s.cur.appEUI, s.gw, (s.msg.map (·.created)).getD 0⟩
     let sys := { sys with published := sys.published ++ [⟨s.cur.appEUI, s.cur.eui, s.plain⟩] }
     let (sys', ts) := nextDevice sys s
-    (sys', .notify s.p ctx :: ts)
+    (sys', ts ++ [.notify s.p ctx])   -- the handler goes on (same thread); the message travels on its own
 
 /-- `frequency.GetDLSettingsOTAA` / `GetRxDelayOTAA`. -/
 def otaaDL : DLSettings := ⟨0, 5⟩
@@ -412,7 +412,7 @@ def stepJoin (E : BlockFn) (cfg : Config) (sys : Sys) (s : JoinSt) (fault : Bool
     ({ sys with fob := fobSetJoinAccept sys.fob s.dev.eui ja }, [.join { s with pc := 6 }])
   | _ =>
     -- notify the scheduler; the frame context carries the device copy made before the keys changed
-    (sys, [.notify s.p ⟨s.ctxDev, jr.appEUI, s.gw, 0⟩, .done])
+    (sys, [.done, .notify s.p ⟨s.ctxDev, jr.appEUI, s.gw, 0⟩])
 
 /-- One operation of the encoder (encoder.go). `D` is the block decryption used for join-accepts. -/
 def stepEncoder (E D : BlockFn) (sys : Sys) (pc : Nat) (p : PHY) (c : Ctx) (bytes : Bytes) (fault : Bool) : Sys × List Thread :=
@@ -472,6 +472,48 @@ def step (E D : BlockFn) (cfg : Config) (sys : Sys) (i : Nat) (fault : Bool) : S
     | [] => { sys' with threads := replaceAt sys'.threads i .done }
     | t0 :: more => { sys' with threads := replaceAt sys'.threads i t0 ++ more }
 
+/-- The storage / output-buffer operation (as named at the verif gates) a thread performs in its
+    next step, with the key the gate reports; `none` when the next step is internal (no gate). -/
+def euiStr (b : Bytes) : String := String.ofList (((b.map byteHex).intersperse ['-']).flatten)
+def addrStr (a : Nat) : String := String.ofList (toHexChars ((be64 a).drop 4))
+
+def nextLabel (cfg : Config) : Thread → Option (String × String)
+  | .uplink s =>
+    let fcnt := s.p.mac.fhdr.fcnt
+    match s.pc with
+    | 0 => if s.p.mhdr.mtype ≠ mtUnconfirmedDataUp ∧ s.p.mhdr.mtype ≠ mtConfirmedDataUp then none
+           else some ("GetDeviceByDevAddr", addrStr s.p.mac.fhdr.devAddr.toUint32)
+    | 1 => if !s.cur.relaxed && s.cur.fcntUp > fcnt then none
+           else if fcnt ≥ s.cur.fcntUp then some ("UpdateDeviceState", euiStr s.cur.eui) else none
+    | 2 => some ("CreateUpstreamMessage", euiStr s.cur.eui)
+    | 3 => some ("GetApplicationByEUI", euiStr s.cur.appEUI)
+    | 4 => if s.p.mhdr.mtype = mtConfirmedDataUp then some ("SetMessageAckFlag", euiStr s.cur.eui) else none
+    | 5 => if s.p.mac.fhdr.fctrl.ack then some ("UpdateMessageAckTime", euiStr s.cur.eui) else some ("ResetActiveAcks", euiStr s.cur.eui)
+    | 6 => some ("GetNextUnsentMessage", euiStr s.cur.eui)
+    | 7 => if s.msg.isSome then some ("SetPayload", euiStr s.cur.eui) else none
+    | 8 => if s.msg.isSome then some ("SetMessageSentTime", euiStr s.cur.eui) else none
+    | _ => none
+  | .join s =>
+    match s.pc with
+    | 0 => if s.raw.length ≠ 23 then none else some ("GetDeviceByEUI", euiStr s.p.joinReq.devEUI)
+    | 1 => some ("GetDeviceByEUI", euiStr s.p.joinReq.devEUI)
+    | 2 => some ("GetApplicationByEUI", euiStr s.p.joinReq.appEUI)
+    | 3 => if cfg.nonceCheckOff then none else some ("AddDevNonce", euiStr s.dev.eui)
+    | 4 => some ("UpdateDevice", euiStr s.dev.eui)
+    | 5 => some ("SetJoinAcceptPayload", euiStr s.dev.eui)
+    | _ => none
+  | .notify _ _ => none
+  | .sendAt c => some ("GetPHYPayloadForDevice", euiStr c.device.eui)
+  | .sendDone _ => none
+  | .encoder pc p c _ =>
+    if p.mhdr.mtype = mtJoinAccept then
+      (if pc = 0 then some ("UpdateDeviceState", euiStr c.device.eui) else some ("encoder.handoff", euiStr c.device.eui))
+    else if p.mhdr.mtype = mtUnconfirmedDataDown ∨ p.mhdr.mtype = mtConfirmedDataDown then
+      (if pc = 0 then some ("SetMessageSentTime", euiStr c.device.eui)
+       else if pc = 1 then some ("UpdateDeviceState", euiStr c.device.eui) else some ("encoder.handoff", euiStr c.device.eui))
+    else none
+  | .done => none
+
 def isDone : Thread → Bool
   | .done => true
   | _ => false
@@ -484,6 +526,15 @@ def settle (E D : BlockFn) (cfg : Config) : Nat → Sys → Sys
     match sys.threads.findIdx? (fun t => !isDone t) with
     | none => { sys with threads := [] }
     | some i => settle E D cfg fuel (step E D cfg sys i false)
+
+/-- Run every internal (ungated) step that is enabled, until each unfinished thread stands before
+    a gated operation: what the real goroutines do between two gates. -/
+def advance (E D : BlockFn) (cfg : Config) : Nat → Sys → Sys
+  | 0, sys => sys
+  | fuel + 1, sys =>
+    match sys.threads.findIdx? (fun t => !isDone t && (nextLabel cfg t).isNone) with
+    | none => sys
+    | some i => advance E D cfg fuel (step E D cfg sys i false)
 
 inductive Event where
   | deliver (raw : Bytes) (gw : GwCtx) (appNonce : Bytes) (newAddr : Nat)
